@@ -23,6 +23,7 @@ Tie to the code (every run, against VERIF_REPO's current working tree):
 import os
 import re
 
+import c13_depth
 import c13_duration
 import core
 import corr_retry
@@ -32,8 +33,8 @@ from core import Exn, call, cstr
 from schema_gen import obj_to_coq
 
 CLAIM = {
-    "text": "Coq theorems (Props/C13.v) about a model of validate.valid_instance / validate_value_type / valid and the five verify() overrides over the regenerated schema tables, for EVERY schema, VALIDATOR key list, primitive-validator function and instance tree (unbounded depth, induction over the reachability relation / instance trees): if any sub-instance reachable through declared child members has a required attribute missing or empty, a child count outside its c_cardinality min/max, or an attribute / text value refused by the primitive validator its declared type name resolves to, by its enumeration, or by its list member type, then valid_instance(root) and root.verify() raise (C13_rejects, C13_rejects_actual, C13_rejects_decided); if every node satisfies its constraints with resolving types and the overrides' own conditions hold, both succeed (C13_accepts, C13_accepts_decided); the two sides are exclusive. Kernel-evaluated on today's tables for ALL rows, no exception list: every declared attribute type / value-type base / list member resolves - a name that is an XSD built-in type to the VALIDATOR key of that very type, any other name to string (C13_types_resolve, C13_value_types_resolve), valid() never raises KeyError for any type name (C13_valid_never_keyerror), every declared enumeration is decided by membership alone whatever its base (C13_enumerations_enforced), so no typed or enumerated attribute value escapes (C13_no_typed_value_escapes, C13_no_enumerated_value_escapes); the verify() overrides are the five modelled ones. NO GENERAL ESCAPE HATCH (C13_no_escape_hatch, induction over the tree): for every schema, primitive validators, tree and ANY rewriting of the extension-attribute dictionaries (xsi:nil = true / 1 added, removed, everything replaced) at every node whose class does not run AttributeValueBase.verify(), valid_instance and verify return the very same verdict; the root's own extension attributes are never looked at. The Gallina lexical validators test the WHOLE value (C13_boolean_anchored: junk before / after an accepted boolean is refused; C13_integer_whole_value / C13_integer_junk_refused: an accepted integer is blanks, one optional sign and digits / single underscores, any other character at any place is refused; C13_nmtoken_whole_value). Non-vacuity: a Response and an EntityDescriptor read back from real objects satisfy `good`, 13 single-constraint mutations of them 1-3 levels down have a reachable violation. DURATION (Model/Duration.v: time_util.parse_duration followed line by line - the loop over D_FORMAT, the search of each designator, the swallowed ValueErrors, every raise): C13_duration_whole_value - valid_duration accepts s IF AND ONLY IF s is, as a whole, -? P followed by items in the order Y M D T H M S, each [0-9]+ and its designator, T only before a time item and never last, the last item possibly [0-9]+ mark [0-9]+ (induction over the format list; soundness for ANY number readers, completeness for the repaired ones); C13_duration_alphabet / C13_duration_junk_refused - nothing may follow the last designator: junk holding any character other than digits . , Y M D T H S, or not ending with an item designator, is refused. The model follows validate.py WITH the repairs proposed_fix/C13-1..3 and time_util.py WITH proposed_fix/C13-4 (all landed in /repo); *_before_fix_refuted theorems keep the failures of the earlier code (C13_duration_before_fix_refuted: PT1Hjunk; C13_duration_numbers_before_fix_refuted: P 1D, P -1D, PT1e3S, PTinfS, PINFINITYD accepted; C13_duration_minutes_before_fix_refuted: the valid P1DT1M, P1DT30M refused).",
-    "note": "Trusted: Coq kernel + vm_compute; translator; the model is hand-written and tested per constraint on every run (units prim, valid, vvt, valid_instance_spec, verify). In the theorems the primitive lexical validators are a function parameter; in the correspondence boolean, the string kinds, the 13 integer kinds (python int() grammar: blanks, sign, single underscores; ASCII digits only), NMTOKEN(S), language and valid_domain_name (regular expressions through a derivative matcher) are Gallina definitions compared with the real functions on edge values, duration is Model/Duration.v compared with validate.valid_duration (verdict, through prim_of) AND with time_util.parse_duration's return value (sign and the six fields; a float as integer part + fraction digits) on 4 000+ values per run (harness/c13_duration.py: every prefix / suffix / deletion / single-character insertion and replacement of 24 valid durations, junk after every designator, 170 liberal or near-miss spellings, 600 durations made item by item and their mutations; 16 000+ in the thorough tier), with the oracle on the implementation alone: accepted <=> inside an independent regular expression of xs:duration (key prim-sample:duration:<value>); while dateTime, base64Binary, anyURI and IP address are a table of clear-cut samples whose verdicts are checked against the real functions; the table (and the edge values of the Gallina validators) holds about 330 values that begin or end with a valid lexical form and carry junk, a second value or a line break (UNANCHORED; each asserted to lie outside an independent regular expression of the lexical space), dateTime also through time_util.str_to_time and its fallback regular expression; the same values are put into every typed attribute / typed text / enumeration (5 per place, rotating), and every class gets its violated text-less variants again with xsi:nil = true / 1 as an extension attribute, through valid_instance AND obj.verify(), at the root, nested, and below a parent that carries xsi:nil. FORMER FINDING duration-trailing-junk-after-time-part (repaired in /repo by 24b91977): valid_duration accepted PT1Hjunk, PT1H2, PT1HPT1H because time_util.parse_duration did not compare its index with the length; the 7 values stay in the duration family and the oracle demands refusal. FORMER FINDING C13-4 (repaired in /repo by 3d465a6f = proposed_fix/C13-4.diff): the numbers of a duration were whatever int() / float() read (P 1D, P+1D, P -1D, P1_0D, PT1e3S, PTinfS, PTnanS, PT.5S, PINFINITYD, non-ASCII digits accepted), and the M of the minutes was taken for the month designator so that VALID durations with a date part without months and the minutes last (P1DT1M, P1DT30M) were refused. KNOWN FINDINGS left in the code because the baseline tests assert them (ISO 8601 reading): a fraction on the last item whatever its designator (P0.5Y, PT2.5H; key duration-outside-xsd:fraction-not-on-seconds) and , as decimal mark (PT1,5S; key duration-outside-xsd:comma-as-decimal-mark). str.strip() / str.lower() are modelled for ASCII. ONLY TESTED, not proved: agreement of model and code; the constraints taken from the SAML 2.0 schemas (SPEC_ANCHORS); that the SP / IdP entry points run the validation on what they parse (23 violated messages through parse_authn_request_response / parse_authn_request). c_value_type maxlen is never enforced (outside the statement). Occurrence bounds are c_cardinality entries only; a single-valued child without an entry (Assertion.issuer, Response.status) is not checked. The committed check expects /repo as it is (the repairs 6afd175c, 2ce8365a, b02e1013, 24b91977 and 3d465a6f have landed); on a tree without 3d465a6f it reports the liberal numbers and the refused valid durations as violations (oracle keys prim-sample:duration:*, disagreements of units duration / duration_value).",
+    "text": "Coq theorems (Props/C13.v) about a model of validate.valid_instance / validate_value_type / valid and the five verify() overrides over the regenerated schema tables, for EVERY schema, VALIDATOR key list, primitive-validator function and instance tree (unbounded depth, induction over the reachability relation / instance trees): if any sub-instance reachable through declared child members has a required attribute missing or empty, a child count outside its c_cardinality min/max, or an attribute / text value refused by the primitive validator its declared type name resolves to, by its enumeration, or by its list member type, then valid_instance(root) and root.verify() raise (C13_rejects, C13_rejects_actual, C13_rejects_decided); if every node satisfies its constraints with resolving types and the overrides' own conditions hold, both succeed (C13_accepts, C13_accepts_decided); the two sides are exclusive. Kernel-evaluated on today's tables for ALL rows, no exception list: every declared attribute type / value-type base / list member resolves - a name that is an XSD built-in type to the VALIDATOR key of that very type, any other name to string (C13_types_resolve, C13_value_types_resolve), valid() never raises KeyError for any type name (C13_valid_never_keyerror), every declared enumeration is decided by membership alone whatever its base (C13_enumerations_enforced), so no typed or enumerated attribute value escapes (C13_no_typed_value_escapes, C13_no_enumerated_value_escapes); the verify() overrides are the five modelled ones. NO GENERAL ESCAPE HATCH (C13_no_escape_hatch, induction over the tree): for every schema, primitive validators, tree and ANY rewriting of the extension-attribute dictionaries (xsi:nil = true / 1 added, removed, everything replaced) at every node whose class does not run AttributeValueBase.verify(), valid_instance and verify return the very same verdict; the root's own extension attributes are never looked at. The Gallina lexical validators test the WHOLE value (C13_boolean_anchored: junk before / after an accepted boolean is refused; C13_integer_whole_value / C13_integer_junk_refused: an accepted integer is blanks, one optional sign and digits / single underscores, any other character at any place is refused; C13_nmtoken_whole_value). DEPTH (Model/ValidateDeep.v; C13_deep_reach, C13_rejects_at_any_depth, C13_accepts_at_any_depth - induction over the number of levels): a chain `deep steps n leaf` built from a depth number, level j by the j-th step cyclically, every step putting its argument under a declared child member: for EVERY n one violation in or below the innermost instance makes valid_instance and verify of the root raise; steps that keep good trees good around a good leaf are accepted. REPEATED SIBLINGS (C13_rejects_repeated_sibling): a list member after any number of copies of any sibling, equal-looking or not, is checked. Non-vacuity: a Response and an EntityDescriptor read back from real objects satisfy `good`, 13 single-constraint mutations of them 1-3 levels down have a reachable violation. DURATION (Model/Duration.v: time_util.parse_duration followed line by line - the loop over D_FORMAT, the search of each designator, the swallowed ValueErrors, every raise): C13_duration_whole_value - valid_duration accepts s IF AND ONLY IF s is, as a whole, -? P followed by items in the order Y M D T H M S, each [0-9]+ and its designator, T only before a time item and never last, the last item possibly [0-9]+ mark [0-9]+ (induction over the format list; soundness for ANY number readers, completeness for the repaired ones); C13_duration_alphabet / C13_duration_junk_refused - nothing may follow the last designator: junk holding any character other than digits . , Y M D T H S, or not ending with an item designator, is refused. The model follows validate.py WITH the repairs proposed_fix/C13-1..3 and time_util.py WITH proposed_fix/C13-4 (all landed in /repo); *_before_fix_refuted theorems keep the failures of the earlier code (C13_duration_before_fix_refuted: PT1Hjunk; C13_duration_numbers_before_fix_refuted: P 1D, P -1D, PT1e3S, PTinfS, PINFINITYD accepted; C13_duration_minutes_before_fix_refuted: the valid P1DT1M, P1DT30M refused).",
+    "note": "Trusted: Coq kernel + vm_compute; translator; the model is hand-written and tested per constraint on every run (units prim, valid, vvt, valid_instance_spec, verify). In the theorems the primitive lexical validators are a function parameter; in the correspondence boolean, the string kinds, the 13 integer kinds (python int() grammar: blanks, sign, single underscores; ASCII digits only), NMTOKEN(S), language and valid_domain_name (regular expressions through a derivative matcher) are Gallina definitions compared with the real functions on edge values, duration is Model/Duration.v compared with validate.valid_duration (verdict, through prim_of) AND with time_util.parse_duration's return value (sign and the six fields; a float as integer part + fraction digits) on 4 000+ values per run (harness/c13_duration.py: every prefix / suffix / deletion / single-character insertion and replacement of 24 valid durations, junk after every designator, 170 liberal or near-miss spellings, 600 durations made item by item and their mutations; 16 000+ in the thorough tier), with the oracle on the implementation alone: accepted <=> inside an independent regular expression of xs:duration (key prim-sample:duration:<value>); while dateTime, base64Binary, anyURI and IP address are a table of clear-cut samples whose verdicts are checked against the real functions; the table (and the edge values of the Gallina validators) holds about 330 values that begin or end with a valid lexical form and carry junk, a second value or a line break (UNANCHORED; each asserted to lie outside an independent regular expression of the lexical space), dateTime also through time_util.str_to_time and its fallback regular expression; the same values are put into every typed attribute / typed text / enumeration (5 per place, rotating), and every class gets its violated text-less variants again with xsi:nil = true / 1 as an extension attribute, through valid_instance AND obj.verify(), at the root, nested, and below a parent that carries xsi:nil. DEPTH TIE (harness/c13_depth.py): the recursive classes are read from the regenerated tables (16 today, 23 cycles of child edges); per cycle chains of 8, 31, 32, 33, 64, 200, 400 and 900 child edges with one violation of each kind at the innermost level and the valid twin, through valid_instance and obj.verify(); up to 64 edges also against the model, the tree being built inside Coq from the depth number (units deep_valid_instance_spec, deep_verify); valid twins are demanded accepted up to 200 edges (valid_instance needs 3 Python frames per edge, the default recursion limit allows about 320), above that only refusal - RecursionError counts - is demanded; lists in which a later member repeats an earlier valid one and adds a violating grandchild; wide lists (violated member last of 2 / 33 / 64 / 200); XML text with deep StatusCode and Assertion > Advice > Assertion chains through parse_authn_request_response and nested EntitiesDescriptors through InMemoryMetaData.parse / MetadataStore.imp (oracle keys not-rejected:depth=<n>:<class-path>:<violation>). Extension elements / AttributeValue content are not validated by valid_instance at all (outside the statement: not declared child members). FORMER FINDING duration-trailing-junk-after-time-part (repaired in /repo by 24b91977): valid_duration accepted PT1Hjunk, PT1H2, PT1HPT1H because time_util.parse_duration did not compare its index with the length; the 7 values stay in the duration family and the oracle demands refusal. FORMER FINDING C13-4 (repaired in /repo by 3d465a6f = proposed_fix/C13-4.diff): the numbers of a duration were whatever int() / float() read (P 1D, P+1D, P -1D, P1_0D, PT1e3S, PTinfS, PTnanS, PT.5S, PINFINITYD, non-ASCII digits accepted), and the M of the minutes was taken for the month designator so that VALID durations with a date part without months and the minutes last (P1DT1M, P1DT30M) were refused. KNOWN FINDINGS left in the code because the baseline tests assert them (ISO 8601 reading): a fraction on the last item whatever its designator (P0.5Y, PT2.5H; key duration-outside-xsd:fraction-not-on-seconds) and , as decimal mark (PT1,5S; key duration-outside-xsd:comma-as-decimal-mark). str.strip() / str.lower() are modelled for ASCII. ONLY TESTED, not proved: agreement of model and code; the constraints taken from the SAML 2.0 schemas (SPEC_ANCHORS); that the SP / IdP entry points run the validation on what they parse (23 violated messages through parse_authn_request_response / parse_authn_request). c_value_type maxlen is never enforced (outside the statement). Occurrence bounds are c_cardinality entries only; a single-valued child without an entry (Assertion.issuer, Response.status) is not checked. The committed check expects /repo as it is (the repairs 6afd175c, 2ce8365a, b02e1013, 24b91977 and 3d465a6f have landed); on a tree without 3d465a6f it reports the liberal numbers and the refused valid durations as violations (oracle keys prim-sample:duration:*, disagreements of units duration / duration_value).",
     "technique": "machine-checked proof (Coq, induction over instance trees) + regenerated-table obligations over all rows + per-constraint model/implementation correspondence",
 }
 TRUSTED = [
@@ -48,10 +49,12 @@ ASSUMPTIONS = [
 RULE = ("for every class: minimal valid instance; each required attribute missing and empty; each attribute / text of a typed kind with valid and invalid "
         "samples (text also padded); each c_cardinality bound violated from below, met exactly and exceeded; override conditions; each violated instance also nested "
         "under every parent class, in list members at the first, middle and last position (quick: one violated + the valid child per parent/child row; thorough: all); "
-        "classes without a constraint of their own with a violation further down; random two-level chains; a share of the root variants again with ignorable decoration. "
+        "classes without a constraint of their own with a violation further down; random two-level chains; a share of the root variants again with ignorable decoration; "
+        "every cycle of the recursive classes at 8 .. 900 child edges with each kind of violation innermost + the valid twin; repeated siblings; wide lists; deep chains through the entry points. "
         "Non-trivial = exactly one constraint violated (distinct by class, constraint, nesting)")
 
 IMPORTS = "Model.Schema Model.Validate Gen.SchemaTables"
+IMPORTS_DEEP = IMPORTS + " Model.ValidateDeep"
 # the statement says that validation FAILS, not with which exception class: accepted / raises is compared;
 # C13_EXACT=1 compares the classes too (they agree today)
 EXACT = os.environ.get("C13_EXACT") == "1"
@@ -1290,11 +1293,39 @@ def run(ctx):
         ctx.count("chain-depth-2")
         made += 1
     lap("generate+implementation")
-    ctx.extra["cases"] = {"valid_instance": len(vi_cases), "verify": len(ver_cases), "spec": len(spec_cases)}
+    # DEPTH / repeated SIBLINGS (harness/c13_depth.py): chains through every recursive construct of the tables, built inside Coq from a depth number
+    deep_vi, deep_ver = [], []
+
+    def emit(coq, claim, impl, show):
+        cid_ = "%s:%s:%s:%d:%s" % (show["violated_class"], show["kind"], show["member"], show["idx"], show["nest"])
+        deep_vi.append(dict(id=cid_, coq="(%s,(%d)%%Z)" % (coq, claim), impl=[impl[0], claim], show=show))
+        deep_ver.append(dict(id="verify:" + cid_, coq=coq, impl=impl[1], show=show))
+    ctx.extra["depth"] = c13_depth.check_chains(ctx, T, B, per_class, obs, emit)
+    lap("depth:chains")
+    ctx.extra["depth"]["sibling_cases"] = c13_depth.check_siblings(ctx, T, B, per_class, obs, emit)
+    ctx.extra["depth"]["width_cases"] = c13_depth.check_width(ctx, T, B, per_class)
+    lap("depth:siblings+width")
+    c13_depth.check_entries(ctx)
+    lap("depth:entry-points")
+    ctx.extra["cases"] = {"valid_instance": len(vi_cases), "verify": len(ver_cases), "spec": len(spec_cases), "deep": len(deep_vi)}
+    corr_retry.correspond(ctx, "deep_valid_instance_spec", IMPORTS_DEEP, vi_spec_expr(), "inst * Z", deep_vi, shard=150, timeout=900)
+    corr_retry.correspond(ctx, "deep_verify", IMPORTS_DEEP, model_expr("verify"), "inst", deep_ver, shard=150, timeout=900)
+    lap("model:deep")
     corr_retry.correspond(ctx, "valid_instance_spec", IMPORTS, vi_spec_expr(), "inst * Z", vi_cases, shard=250, timeout=900)
     lap("model:valid_instance_spec")
     corr_retry.correspond(ctx, "verify", IMPORTS, model_expr("verify"), "inst", ver_cases, shard=150, timeout=900)
     lap("model:verify")
+
+
+def full_per_class(T, B):
+    """the variant lists as run() has them after its `deep:` pass (for the replay of the depth units)"""
+    per_class = {c: B.variants(c) for c in range(len(T.classes))}
+    for cid in range(len(T.classes)):
+        if not any(v[2] is True for v in per_class[cid]):
+            d = B.deep_violated(cid, per_class)
+            if d is not None:
+                per_class[cid] = per_class[cid] + [("deep:" + d[0], "-", True, d[1])]
+    return per_class
 
 
 def _pretty(model):
@@ -1307,7 +1338,11 @@ def cex_search(ctx):
     """a model / implementation disagreement IS a concrete input: name it, so that the replay file carries it"""
     for d in ctx.disagreements[:20]:
         show = d.case.get("show") or {}
-        if d.unit in ("valid_instance_spec", "verify") and "kind" in show:
+        if d.unit in ("deep_valid_instance_spec", "deep_verify"):
+            ctx.oracle_fail("disagreement:%s:%s:%s:%s.%s" % (d.unit, show["nest"], show["kind"].split(":")[0], show["violated_class"], show["member"]),
+                            "%s of %s.%s (%s): the implementation gives %r, the verified model %s" % (
+                                show["kind"], show["violated_class"], show["member"], show["nest"], d.impl, _pretty(d.model)), show["replay"])
+        elif d.unit in ("valid_instance_spec", "verify") and "kind" in show:
             ctx.oracle_fail("disagreement:%s:%s:%s.%s" % (d.unit, show["violated_class"], show["kind"].split(":")[0], show["member"]),
                             "%s of %s.%s (%s): the implementation gives %r, the verified model %s" % (
                                 show["kind"], show["violated_class"], show["member"], show["nest"], d.impl, _pretty(d.model)),
@@ -1385,6 +1420,8 @@ def replay(ctx, payload):
         print(inp["label"])
         print(str(o)[:3000])
         print("obj.verify() ->", outcome(call(o.verify)), "; entry point ->", run_entry(inp["kind"], o))
+    elif u in ("depth", "siblings", "width", "depth-entry"):
+        c13_depth.replay(T, B, full_per_class(T, B), inp)
     elif u == "variant":
         cid = T.qname.index(inp["class"])
         per_class = {c: B.variants(c) for c in range(len(T.classes))}
